@@ -7,7 +7,7 @@ from vlib import ref_crypto as rc
 from vlib.harness import Violation
 
 PID = "C07"
-RULE = ("(curve, secret key, message, alteration): keys of the four curves (valid scalars incl. 1, n-1, high-bit "
+RULE = ("(curve, secret key, message as bytes / hex text in lower, upper or mixed case / 0x-prefixed hex, alteration): keys of the four curves (valid scalars incl. 1, n-1, high-bit "
         "patterns; BLS capped because each case costs ~1 s); messages = bytes 0..512 or hex strings with/without 0x; "
         "alterations (judged before or after the genuine triple, in one process): one bit of the message, one bit of the encoded public key, the "
         "signature bytes under another curve's prefix, one bit/byte of the decoded signature (re-encoded with a valid "
@@ -195,10 +195,11 @@ def cases(draw, curves):
     m = draw(st.one_of(st.binary(max_size=64), st.binary(min_size=65, max_size=512),
                        st.sampled_from([b"", b"\x00", b"\x03" + b"\x11" * 40])))
     form = draw(st.integers(0, 3))
+    spell = draw(st.sampled_from([str.lower, str.lower, str.upper, lambda h: "".join(c.upper() if i % 3 == 0 else c for i, c in enumerate(h))]))
     if form == 0:
-        case["msg_hex_str"] = m.hex()
+        case["msg_hex_str"] = spell(m.hex())
     elif form == 1:
-        case["msg_hex_str"] = "0x" + m.hex()
+        case["msg_hex_str"] = "0x" + spell(m.hex())
     else:
         case["msg"] = m.hex()
     kind = draw(st.sampled_from(["msg-bit", "sig-bit", "sig-byte", "other-key", "other-curve", "key-bit", "key-bit", "sig-foreign", None]))
